@@ -30,7 +30,7 @@ PROPERTY = "C05"
 RULE = ("poly_scalar: full product ndim(1-4) x cells-per-axis profile x dimension names x geometry x periodic axis x "
         "monomial(deg<=2); poly_vector: full product ndim x dimension names x labels x EVERY mapping permutation x geometry "
         "variant (a list: cells per axis / origin+scale / periodic axis) x component x monomial; combination: full product "
-        "ndim x operator x every mapping permutation x names x periodic x validity mask x every impulse (cell x component) "
+        "ndim x operator x every mapping permutation x key order of the mapping dict x names x periodic x validity mask x every impulse (cell x component) "
         "+ tracer; value_types: full product ndim x operator x 2 mappings x {complex, int} x periodic x validity mask; identities: full product of n in {1..3 (thorough 1..4)}^3 x periodic x geometry x mapping permutation x "
         "every impulse + tracer; rotation: full product ndim x operator x every mapping permutation x labels x names x "
         "ordered axis pair x k in 1..3 x periodic axis x validity mask; refusals: full product operator x misfit case. "
@@ -225,8 +225,9 @@ def unit_poly_scalar(ctx):
             _cmp(ctx, lp.array[..., 0], exp, sc, "Field.laplace/scalar/polynomial-inexact", f"laplace of x^{e}", inst)
 
 
-def _vector_field(ctx, mesh, ndim, labels, perm, array, **kw):
-    """vector field whose component i is mapped to axis perm[i]"""
+def _vector_field(ctx, mesh, ndim, labels, perm, array, keyorder="vdims", **kw):
+    """vector field whose component i is mapped to axis perm[i]; keyorder='reversed' writes the SAME mapping with its
+    keys in another order than vdims (a dict is a mapping, not a sequence: pairing by position in the dict is wrong)"""
     dims = mesh.region.dims
     if labels == "default":
         vd = DEFAULT_LABELS[ndim]
@@ -235,7 +236,8 @@ def _vector_field(ctx, mesh, ndim, labels, perm, array, **kw):
     else:
         vd = list(CUSTOM[:ndim])
     vm = {vd[i]: dims[perm[i]] for i in range(ndim)}
-    return df.Field(mesh, nvdim=ndim, value=array, vdims=vd, vdim_mapping=vm, **kw), vd, vm
+    given = vm if keyorder == "vdims" else dict(reversed(list(vm.items())))
+    return df.Field(mesh, nvdim=ndim, value=array, vdims=vd, vdim_mapping=given, **kw), vd, vm
 
 
 def unit_poly_vector(ctx):
@@ -508,6 +510,8 @@ def unit_combination(ctx):
     nv = ndim if vector else 1
     ncell = int(np.prod(n))
     probe = ctx.choose("probe", ["tracer"] + [(i, c) for i in range(ncell) for c in range(nv)])
+    # the same mapping written with its keys in another order (tracer probe only: pairing is decided once per field)
+    keyorder = ctx.choose("mapping-key-order", ["vdims", "reversed"]) if vector and ndim > 1 and probe == "tracer" else "vdims"
     if probe == "tracer":
         vals = C.tracer(n, nv, ctx.seed)
     else:
@@ -516,7 +520,7 @@ def unit_combination(ctx):
         vals = vals.reshape(n + [nv])
     valid = np.ones(n, dtype=bool) if mask == "all" else C.coded_mask(tuple(n), 5)
     if vector:
-        f, vd, vm = _vector_field(ctx, mesh, ndim, "default" if ndim < 4 else "custom", perm, vals, valid=valid)
+        f, vd, vm = _vector_field(ctx, mesh, ndim, "default" if ndim < 4 else "custom", perm, vals, keyorder=keyorder, valid=valid)
     else:
         f = df.Field(mesh, nvdim=1, value=vals, valid=valid)
     ctx.step(1, op)
